@@ -14,7 +14,7 @@ package main
 //   lazy     0 = the consumer calls next() again immediately; 1 = each call is a scheduled action
 //   faults   `-` or `<req>:<kind>,…`  req = h<k> | b<k> (getblockhash / getblock of height from+k)
 //            kind = t transport error | r RPC error object (code -1) | o RPC error -8 (height out of range) |
-//                   f RPC error -5 (not found) | a HTTP 401 | z body `null` |
+//                   f RPC error -5 (not found) | g RPC error -28 (warming up) | a HTTP 401 | z body `null` |
 //                   s non-string result | x non-hex block | y truncated block | n block that does not link |
 //                   w sibling of the previous block (links, one height lower; Go-side oracles only)
 //   cancel   `-` | d<k> (inside the consumer, right after k deliveries; d0 = before the call) |
@@ -243,7 +243,7 @@ func strmParseSpec(f []string) (*strmSpec, error) {
 	if f[6] != "-" {
 		for _, it := range strings.Split(f[6], ",") {
 			kv := strings.Split(it, ":")
-			if len(kv) != 2 || len(kv[1]) != 1 || len(kv[0]) < 2 || !strings.Contains("trazofsxynw", kv[1]) {
+			if len(kv) != 2 || len(kv[1]) != 1 || len(kv[0]) < 2 || !strings.Contains("trazofgsxynw", kv[1]) {
 				return nil, errors.New("fault")
 			}
 			s.faults[kv[0]] = kv[1][0]
@@ -394,6 +394,8 @@ func (run *strmRun) respond(pr *strmReq, kind byte) (strmResp, string) {
 		return strmResp{status: 500, body: `{"result":null,"error":{"code":-8,"message":"Block height out of range"},"id":` + pr.rpcID + "}\n"}, "e"
 	case 'f':
 		return strmResp{status: 500, body: `{"result":null,"error":{"code":-5,"message":"Block not found"},"id":` + pr.rpcID + "}\n"}, "e"
+	case 'g': // every attempt for this request is answered "still warming up"
+		return strmResp{status: 500, body: `{"result":null,"error":{"code":-28,"message":"Loading block index..."},"id":` + pr.rpcID + "}\n"}, "e"
 	case 'a':
 		return strmResp{status: 401, body: ""}, "e"
 	case 'z':
@@ -1275,8 +1277,8 @@ func init() {
 	regRunner("C16", runC16)
 }
 
-var strmErrKindsHash = []byte("trazof")
-var strmErrKindsBlock = []byte("trazofsxy")
+var strmErrKindsHash = []byte("trazofg")
+var strmErrKindsBlock = []byte("trazofgsxy")
 
 func runC16(r *Runner) string {
 	seedBase := r.rng.Int63n(1 << 20)
